@@ -17,7 +17,7 @@ RULE = ("random shots (twist 0) with 1-4 wind segments (speeds 0-60 ft/s, opposi
         "non-trivial when at least one wind with non-zero speed switches inside the range")
 MUST_OBSERVE = ["rel_other_windless_shot_edited", "shots_with_relabelled_winds", "rel_max_distance_keyword", "relations_checked", "rel_setter", "rel_permutation", "rel_zero_speed", "rel_append_zero", "rel_split", "rel_causality",
                 "rel_mirror", "rel_sign_cross", "rel_sign_head_tail", "rel_reference", "reference_rows", "switch_inside_range",
-                "rel_differs_after_switch", "sign_drop_rows_judged"]
+                "rel_differs_after_switch", "sign_drop_rows_judged", "cases_with_debug_logging_on", "cases_under_other_preferred_units"]
 ASSUMPTIONS = ["permutation is only required when all until-distances are distinct (ties have no defined order)",
                "reference comparison tolerance: 3 x the change seen when the solver's step is halved (its own first-order error) + "
                "0.02 ft + 0.2 % of the windage (reference error, a wind switch taking effect up to one step late); a wrong segment "
@@ -58,6 +58,23 @@ def first_diff(a, b, upto_in=None):
 
 def check_case(ctx, case):
     monitors.reset_all()
+    try:
+        if case.get("prefs"):
+            # the session prefers other units; every wind below is built from explicit quantities, so nothing may change
+            for slot, unit in case["prefs"].items():
+                setattr(pb.PreferredUnits, slot, pb.Unit[unit])
+            ctx.count("cases_under_other_preferred_units")
+        if case.get("debug"):
+            pb.set_debug(True)      # the library's public debug-logging switch stays on for the whole case: what is logged is not what is computed
+            ctx.count("cases_with_debug_logging_on")
+        _check_case(ctx, case)
+    finally:
+        if pb.get_debug():
+            pb.set_debug(False)
+        pb.PreferredUnits.defaults()
+
+
+def _check_case(ctx, case):
     spec, r_ft, step = case["shot"], case["range_ft"], case["step_ft"]
     winds = spec["winds"]
     base, base_raised = rows_of(spec, r_ft, step)
@@ -320,7 +337,12 @@ def gen_case(rng):
             "edit_other_windless_shot": rng.random() < 0.25,
             "split_idx": rng.randint(0, 3), "split_frac": round(rng.uniform(0.1, 0.9), 3), "cause_idx": rng.randint(0, 3),
             "cause_add": rng.random() < 0.7, "cause_speed": round(rng.uniform(5, 60), 2), "cause_dir": round(rng.uniform(0, 360), 1),
-            "sign_speed": round(rng.uniform(3, 40), 2), "reference": rng.random() < 0.4}
+            "sign_speed": round(rng.uniform(3, 40), 2), "reference": rng.random() < 0.4,
+            "debug": r_ft <= 1500.0 and rng.random() < 0.2,
+            "prefs": ({"angular": rng.choice(["Radian", "Degree", "MOA", "Mil", "MRad", "Thousandth", "InchesPer100Yd", "CmPer100m", "OClock"]),
+                       "velocity": rng.choice(["MPS", "KMH", "FPS", "MPH", "KT"]),
+                       "distance": rng.choice(["Inch", "Foot", "Yard", "Mile", "Millimeter", "Centimeter", "Meter", "Kilometer"])}
+                      if rng.random() < 0.3 else None)}
 
 
 def run(ctx):
